@@ -119,7 +119,8 @@ func genLeaves(c *core.Ctx) []leaf {
 		case 12:
 			add(leaf{typ: loggerType, tag: `logger:""`, kind: "logger"})
 		case 13:
-			v := []string{"v1,k=a b", "plain", "x,Flag,n=[1,2] z"}[c.Rng.Intn(3)]
+			// (values with blanks at their ends are handed over as written)
+			v := []string{"v1,k=a b", "plain", "x,Flag,n=[1,2] z", " | ", "  ,kind=prefix", " padded ,k=a b", "tail  "}[c.Rng.Intn(7)]
 			add(leaf{typ: reflect.TypeOf(0), tag: fmt.Sprintf("mytag:%q", v), kind: "custom", expect: v})
 		case 14:
 			add(leaf{typ: reflect.TypeOf(""), tag: `value:"${c11.none:dflt}"`, expect: "dflt", kind: "value"})
